@@ -160,6 +160,28 @@ func (s *Service) Dispose() {
 	}
 }
 
+func (s *Service) tlsOptions() (bool, bool) {
+	s.serviceLock.Lock()
+	defer s.serviceLock.Unlock()
+
+	return s.options.TLSEnabled, s.options.TLSRedirect
+}
+
+func (s *Service) setTLSOptions(enabled, redirect bool) {
+	s.serviceLock.Lock()
+	defer s.serviceLock.Unlock()
+
+	s.options.TLSEnabled = enabled
+	s.options.TLSRedirect = redirect
+}
+
+func (s *Service) currentOptions() ServiceOptions {
+	s.serviceLock.Lock()
+	defer s.serviceLock.Unlock()
+
+	return s.options
+}
+
 func (s *Service) loadBalancers() (*LoadBalancer, *LoadBalancer, *RolloutController) {
 	s.serviceLock.Lock()
 	defer s.serviceLock.Unlock()
@@ -237,7 +259,7 @@ func (s *Service) MarshalJSON() ([]byte, error) {
 		Name:              s.name,
 		ActiveTargets:     active.Targets().Names(),
 		RolloutTargets:    rolloutTargets,
-		Options:           s.options,
+		Options:           s.currentOptions(),
 		TargetOptions:     s.targetOptions,
 		PauseController:   s.pauseController,
 		RolloutController: rolloutController,
@@ -433,7 +455,7 @@ func (s *Service) serviceRequestWithTarget(w http.ResponseWriter, r *http.Reques
 		return
 	}
 
-	if !s.options.TLSEnabled && r.TLS != nil {
+	if tlsEnabled, _ := s.tlsOptions(); !tlsEnabled && r.TLS != nil {
 		SetErrorResponse(w, r, http.StatusServiceUnavailable, nil)
 		return
 	}
@@ -472,7 +494,8 @@ func (s *Service) serviceRequestWithTarget(w http.ResponseWriter, r *http.Reques
 }
 
 func (s *Service) shouldRedirectToHTTPS(r *http.Request) bool {
-	return s.options.TLSEnabled && s.options.TLSRedirect && r.TLS == nil
+	tlsEnabled, tlsRedirect := s.tlsOptions()
+	return tlsEnabled && tlsRedirect && r.TLS == nil
 }
 
 func (s *Service) handlePausedAndStoppedRequests(w http.ResponseWriter, r *http.Request) bool {
